@@ -67,3 +67,21 @@ Theorem C02_end_to_end_default : forall c caps cmin so (stim : nat -> code) (m0 
 Proof. intros c caps cmin so stim m0 v H1 H2 H3 H4 H5 H6 H7 p Hp.
   exact (proj2 (proj2 (KV.Proofs.EndToEnd.end_to_end_solution sem8_lut Zero c caps cmin so stim m0 v H1 H2 H3 H4 H5 H6 H7 p Hp))). Qed.
 Print Assumptions C02_end_to_end_default.
+
+(** MODEL-LEVEL END TO END, multi-valued.  The entry point of the 4-/8-valued correspondence check ([sim_case8]: SimOps.build with
+    any c_reuse / strip_forks, s_to_c, c_prop with the documented operator composition [spec_prim] per opcode, c_to_s on a list
+    memory) returns, for every well-formed acyclic netlist of known gates and every stimulus, the capture of the gate-by-gate
+    execution of C02_gate_by_gate: at every s_node with a data line, the value of that line in ANY solution of the node equations
+    in the domain [code].  None only where SimOps raises (a stripped fork without stem).  (Proofs/LogicSimGlue.v) *)
+From KV Require Import Model.LogicSimModel Model.CycleSem.
+From KV Require Proofs.LogicSimGlue Proofs.ReuseStrip.
+Theorem C02_logicsim_model_correct : forall c reuse strip s0 s1,
+  wf_netlist c -> comb_acyclic c -> KV.Proofs.EndToEnd.gates_known c -> (strip = true -> KV.Proofs.ReuseStrip.forks_ok c) ->
+  List.length s0 = List.length (s_nodes c) -> List.length s1 = List.length (s_nodes c) ->
+  match sim_case8 c reuse strip s0 s1 with
+  | Some r => r = capture Zero c (iexec sem8_lut (fun x => x) (build_ops c false) (init_env Zero c (fun p => nth p s0 Zero))) s1 /\
+              forall v, solution sem8_lut Zero c (fun p => nth p s0 Zero) v ->
+                forall p l0, snode_in c p = Some l0 -> nth p r Zero = v l0
+  | None => build_stems c strip (List.length (c_lines c) + 3 + List.length (s_nodes c) + List.length (s_nodes c)) = None
+  end.
+Proof. exact KV.Proofs.LogicSimGlue.sim_case8_correct. Qed.
